@@ -1589,7 +1589,11 @@ def N_from(ex, n, a):
         return collect_into(ex, IterV(iter(list(a[0].items))), selfp)
     mt = re.fullmatch(r'(u|i)(8|16|32|64|128|size)', selfp)
     if mt and isinstance(a[0], Num):
-        return num_cast(a[0], 64 if mt.group(2) == 'size' else int(mt.group(2)), mt.group(1) == 'i')
+        r = num_cast(a[0], 64 if mt.group(2) == 'size' else int(mt.group(2)), mt.group(1) == 'i')
+        if not a[0].signed and not r.signed and a[0].bits < r.bits and not r.concrete:
+            from .core import NumB
+            return NumB(r.e, r.bits, r.signed, 1 << a[0].bits)       # zero-extension: the value stays below 2^(source width)
+        return r
     if mt and isinstance(a[0], (bool, z3.BoolRef)):
         bits = 64 if mt.group(2) == 'size' else int(mt.group(2))
         if isinstance(a[0], bool): return Num(int(a[0]), bits, mt.group(1) == 'i')
